@@ -411,6 +411,59 @@ func (r *Run) Sched(o SchedOpts) {
 	}
 }
 
+// Do runs fn as a harness task to completion without consuming the tape:
+// at every step the most recently created parked task (fn itself or a helper
+// goroutine it spawned) is released; older background tasks only run when fn
+// cannot proceed without them. Use it for sequential harness phases that call
+// code which spawns goroutines or waits on channels (the root goroutine must
+// never block on a parked task).
+func (r *Run) Do(name string, fn func()) {
+	done := false
+
+	r.Go(name, func() {
+		fn()
+		done = true
+	})
+
+	idle := 0
+
+	for i := 0; i < 2000000; i++ {
+		synctest.Wait()
+
+		if r.Failed() {
+			panic(abortRun{})
+		}
+
+		if p := r.panicked.Load(); p != nil {
+			panic(harnessTrouble(*p))
+		}
+
+		if done {
+			return
+		}
+
+		ps := r.Parked()
+		if len(ps) == 0 {
+			idle++
+			if idle > 100000 {
+				panic(harnessTrouble("Do(" + name + "): no progress"))
+			}
+
+			time.Sleep(time.Millisecond)
+
+			continue
+		}
+
+		idle = 0
+		r.Steps++
+		p := ps[len(ps)-1]
+		r.schedEvent(p.Task.ID, p.Site)
+		r.Release(p)
+	}
+
+	panic(harnessTrouble("Do(" + name + "): step limit"))
+}
+
 // Settle lets everything that is runnable run, releasing parked tasks in
 // first-choice order, until nothing is parked (used in clean-up paths).
 func (r *Run) Settle(max int) {
